@@ -4,6 +4,7 @@ CONSTANTS
   InstOf <- InstOf6
   Limit <- Limit31
   MaxCancel = 1
+  MaxFail = 1
 SPECIFICATION FairSpec
 INVARIANT TypeOK
 INVARIANT Inv_Limit
